@@ -1,7 +1,7 @@
 """C20: evaluation measures match their definitions (counting-kernel + role + closing-formula rules)."""
 
 from ..core import AnalysisError
-from ..ir import Walker, show
+from ..ir import Walker, facts, show
 from ..rules_ift import Rep
 from ..termalg import TermAlgebra
 
@@ -65,7 +65,7 @@ def check_accuracy(rep, repo):
     li, T, P = k
     neq = ("cmp", "!=", *sorted([T, P], key=repr))
     inc = [e for e in w.events if e.kind == "store" and li.lid in e.loops]
-    ok_inc = len(inc) == 2 and all(e.aug == "+" and e.value == ("const", 1) and e.guards == ((neq, True),) for e in inc)
+    ok_inc = len(inc) == 2 and all(e.aug == "+" and e.value == ("const", 1) and facts(e.guards) == (neq,) for e in inc)
     rep.fn("ACC-increments", fi, "two +1 increments per misclassified pair, none otherwise", ok_inc,
            f"{len(inc)} store(s) in the counting loop; each must be `+= 1` under true != pred")
     if not ok_inc:
@@ -170,7 +170,7 @@ def check_per_label(rep, repo):
     li, T, P = k
     neq = ("cmp", "!=", *sorted([T, P], key=repr))
     inc = [e for e in w.events if e.kind == "store" and li.lid in e.loops]
-    ok = len(inc) == 1 and inc[0].aug == "+" and inc[0].value == ("const", 1) and inc[0].guards == ((neq, True),) \
+    ok = len(inc) == 1 and inc[0].aug == "+" and inc[0].value == ("const", 1) and facts(inc[0].guards) == (neq,) \
         and inc[0].target[0] == "idx" and inc[0].target[2] == T
     rep.fn("PL-count", fi, "a misclassified sample adds 1 to the errors of its TRUE class", ok,
            f"increment: {[e.text() for e in inc]}")
@@ -179,7 +179,7 @@ def check_per_label(rep, repo):
     arr = inc[0].target[1]
     divs = [e for e in w.events if e.kind == "bind" and e.aug == "/" and e.target is not None] + \
            [e for e in w.events if e.kind == "store" and e.aug == "/"]
-    counts = [("proj", ("call", ("mod", "numpy.unique"), (lab,), (("return_counts", ("const", True)),)), 1)
+    counts = [("idx", ("call", ("mod", "numpy.unique"), (lab,), (("return_counts", ("const", True)),)), ("const", 1))
               for lab in (("param", "labels"), asarr("labels"))]
     counts += [("call", ("mod", "numpy.bincount"), (lab,), ()) for lab in (("param", "labels"), asarr("labels"))]
     okd = len(divs) == 1 and divs[0].target in counts
